@@ -218,7 +218,9 @@ func runC08(c *Ctx) {
 					if cc, ok := f.X.(*ssa.Call); ok {
 						switch an.CalleeOf(cc).FullName() {
 						case "math.IsInf":
-							inf = true
+							if sign, isC := an.ConstInt(cc.Call.Args[1]); isC && sign == 0 {
+								inf = true // both infinities
+							}
 						case "math.IsNaN":
 							nan = true
 						}
@@ -243,7 +245,9 @@ func runC08(c *Ctx) {
 			if cc, ok := f.X.(*ssa.Call); ok && len(cc.Call.Args) > 0 && an.SameVar(cc.Call.Args[0], v) {
 				switch an.CalleeOf(cc).FullName() {
 				case "math.IsInf":
-					inf = true
+					if sign, isC := an.ConstInt(cc.Call.Args[1]); isC && sign == 0 {
+						inf = true
+					}
 				case "math.IsNaN":
 					nan = true
 				}
@@ -280,6 +284,10 @@ func runC08(c *Ctx) {
 
 	lossyConv(c, "C08")
 	c08TimeCodec(c)
+	adapterWritesOnError(c)
+	omittableSetOnSuccess(c)
+	parseWidth(c)
+	jsonControlBound(c)
 
 	// ---------------------------------------------------------------------------------------------
 	c.R.Rule("utf8", "the quoting sink (writeQuotedString) reaches a UTF-8 validity operation (utf8.RuneError comparison, utf8.Valid*, strings.ToValidUTF8), and its replacement branch depends on the decoded width so that an encoded U+FFFD is preserved", 2)
